@@ -41,6 +41,13 @@ func (p *processor) ValidateObservation(
 		return fmt.Errorf("failed to validate observed token prices: %w", err)
 	}
 
+	// the value of every observed update is dereferenced when the median is taken in Outcome
+	for token, update := range obs.FeeQuoterTokenUpdates {
+		if update.Value.IsEmpty() {
+			return fmt.Errorf("fee quoter update of token %s must not be empty", token)
+		}
+	}
+
 	return nil
 }
 
